@@ -1,5 +1,6 @@
-import FluteModel.Lemmas.SessionClean
+import FluteModel.Lemmas.SessionSeg
 import FluteModel.Lemmas.SessionCodec
+import FluteModel.Lemmas.SessionPart
 /-
   C01 — clean channel: every accepted object arrives exactly once (once per transfer when
   receive-once is off), nothing is reported as error; an object the wire format cannot carry is
@@ -48,6 +49,61 @@ theorem clean_channel_exact_once (c : Codec) (rc : RxCfg) (o : ObjCfg)
   rw [e, h2.1, h2.2.1, h2.2.2.1, h2.2.2.2, h1.completes, h1.opens, h1.errors, h1.interrupts, hx]
   exact ⟨rfl, rfl, rfl, rfl⟩
 
+/-- **C01, delivery clause, session level: sender model ∘ clean channel ∘ receiver model.**
+    For ANY block sizes (`o.ks`, every block with a source symbol and encodable), parity, scheme,
+    interleave window ≥ 1, `max_transfer_count` m ≥ 1, in-band or FDT-only OTI, any other objects
+    multiplexed in between, any decoders satisfying the contract: the receiver is fed, in order and
+    without loss, `ps1 ++ ps2` where `ps1` holds no packet of the object and an FDT instance received
+    whole (announce before send: C11), and the object's packets in `ps2` are its whole life as the
+    model's block encoder emits it (`life`: m - 1 ordinary transfers and the last one; the scheduler
+    only interleaves - `scheduler_only_interleaves`).  FullFDT (every instance lists the object), cache
+    directive not no-cache (D28), receiver limits not binding.  Then the object writer is opened and
+    completed exactly m times - exactly once with receive-once - and never gets `error` /
+    `interrupted`. -/
+theorem clean_channel_exact_once_session (cF cO : Codec) (rc : RxCfg) (s : SessCfg) (o : ObjCfg)
+    (hto : o.toi ≠ 0) (hN : o.ks.isEmpty = false) (hfit : Fits rc o) (hnc : o.noCache = false) (hw : 1 ≤ s.w)
+    (hblocks : ∀ (b k : Nat), o.ks[b]? = some k → 1 ≤ k ∧ blockFails o.scheme k o.p = false)
+    (hm : 1 ≤ o.transfers)
+    (tr trLast : List Sym) (h1 : emitTransfer (objEnc s o false) = some tr) (h2 : emitTransfer (objEnc s o true) = some trLast)
+    (hall : ∀ f, f ∈ s.fdts → f.files.contains o.toi = true)
+    (f : FdtCfg) (hfind : s.fdts.find? (fun x => x.id == f.id) = some f)
+    (hfN : f.ks.isEmpty = false) (hflook : f.ks.size ≤ rc.maxLook)
+    (hfresh : blockDone cF.canDecode f.ks s.fdtP [] 0 = false)
+    (ps1 ps2 : List Pkt)
+    (hgenF : ∀ p, p ∈ ps1 → p.toi = 0 → p.fdtId = f.id → Genuine (fdtObj s f) (toSym p) ∧ p.close = false)
+    (hwhole : AllDec cF (fdtObj s f) (fsyms f.id ps1))
+    (hannounce : osyms o ps1 = [])
+    (hlife : osyms o ps2 = life tr trLast o.transfers) :
+    let st := observe cF.canDecode cO.canDecode rc s o (ps1 ++ ps2)
+    st.completes = (if rc.receiveOnce then 1 else o.transfers) ∧
+    st.opens = st.completes ∧ st.errors = 0 ∧ st.interrupts = 0 := by
+  have hTs : ∀ T, T ∈ transfersOf tr trLast o.transfers → TransferOK cO o T := by
+    intro T hT
+    simp only [transfersOf, List.mem_append, List.mem_replicate, List.mem_singleton] at hT
+    rcases hT with ⟨_, rfl⟩ | rfl
+    · exact transferOK_of_emit cO s o false hw hN hblocks _ h1
+    · exact transferOK_of_emit cO s o true hw hN hblocks _ h2
+  have key := clean_stream cF cO rc s o hto hN hfit hnc hall f hfind hfN hflook hfresh ps1 ps2 hgenF hwhole hannounce
+    (transfersOf tr trLast o.transfers) hTs (by rw [hlife, life_eq_flatten])
+  have hlen : (transfersOf tr trLast o.transfers).length = o.transfers := by
+    simp [transfersOf]; omega
+  rw [hlen] at key
+  have hmin : min 1 o.transfers = 1 := by omega
+  rw [hmin] at key
+  exact key
+
+/-- the scheduler only interleaves: whatever the schedule, the packets of a non-carousel object appear in
+    the merged stream in the order its block encoder emits them - a prefix of its `life` -/
+theorem scheduler_only_interleaves (o : ObjCfg) (hto : o.toi ≠ 0) (hm : 1 ≤ o.transfers)
+    (tr trLast : List Sym) (sched : List Slot) (srcs : List Src) (stream : List Pkt)
+    (hb : buildStream srcs sched = some stream)
+    (hsrc : findSrc srcs (Slot.obj o.toi) =
+      some { slot := Slot.obj o.toi, tr := tr, trLast := trLast, transfers := o.transfers, carousel := false, t := 0, rest := [] }) :
+    osyms o stream <+: life tr trLast o.transfers := by
+  obtain ⟨x', hx'⟩ := buildStream_object o hto sched srcs stream _ hb hsrc rfl
+  rw [remaining_fresh _ _ _ _ hm] at hx'
+  exact ⟨_, hx'⟩
+
 /-! ### the refusal clause -/
 
 theorem divCeil_le (a b m : Nat) (hb : 0 < b) (h : a ≤ m * b) : divCeil a b ≤ m := by
@@ -87,6 +143,46 @@ theorem too_large_refused (s : Scheme) (e b p tl aLarge : Nat) (he : 0 < e) (hb 
       apply divCeil_le _ _ _ he
       calc tl ≤ e * b * maxSbn s := hle'
         _ = maxSbn s * b * e := by rw [Nat.mul_comm (e * b), Nat.mul_comm e b, Nat.mul_assoc]
+
+/-! ### phase 2: the block structure is the RFC 5052 partition (C07) of an accepted object -/
+
+/-- **Tie to C07.**  The theorems above quantify over arbitrary block structures `ks`; for a real
+    object they are instantiated with the partition `block_partitioning(B, L, E)` (model of partition.rs,
+    engine `part`, proved equal to RFC 5052 in Props/C07): for EVERY L > 0, E > 0, B > 0 it has at least
+    one block and every block has between 1 and B source symbols - the side conditions `hN` and the first
+    half of `hblocks`. -/
+theorem partition_instance (b l e aL aS nL n : Nat) (hb : 0 < b) (he : 0 < e) (hl0 : 0 < l) (hl : l < 2^64)
+    (h : Partition.blockPartitioning b l e = .ok (aL, aS, nL, n)) :
+    (ksOf aL aS nL n).isEmpty = false ∧
+    ∀ (s k : Nat), (ksOf aL aS nL n)[s]? = some k → 1 ≤ k ∧ k ≤ b :=
+  partition_blocks_ok b l e aL aS nL n hb he hl0 hl h
+
+/-- the second half of `hblocks`: an object `add_object` accepts has encodable blocks - for No-Code,
+    RaptorQ and (after the repairs of D21 / D25: parity ≥ 1, A_large + parity ≤ 256) Reed-Solomon.
+    Raptor blocks of 2 or 3 symbols are the exception (finding D23 / D26). -/
+theorem accepted_blocks_encodable (s : Scheme) (e b p tl aLarge k : Nat)
+    (hacc : refused s e b p tl aLarge = false) (hk1 : 1 ≤ k) (hk2 : k ≤ aLarge)
+    (hrap : s = .raptor → k ≠ 2 ∧ k ≠ 3) : blockFails s k p = false := by
+  simp only [refused, Bool.or_eq_false_iff] at hacc
+  cases s with
+  | nocode => rfl
+  | raptorq => rfl
+  | raptor =>
+    have := hrap rfl
+    simp only [blockFails, Bool.or_eq_false_iff, beq_eq_false_iff_ne]
+    exact this
+  | rs =>
+    have h2 := hacc.2
+    simp only [beq_self_eq_true, Bool.true_or, Bool.true_and, Bool.or_eq_false_iff, beq_eq_false_iff_ne,
+      decide_eq_false_iff_not] at h2
+    simp only [blockFails, Bool.or_eq_false_iff, beq_eq_false_iff_ne, decide_eq_false_iff_not]
+    omega
+  | rsus =>
+    have h2 := hacc.2
+    simp only [beq_self_eq_true, Bool.or_true, Bool.true_and, Bool.or_eq_false_iff, beq_eq_false_iff_ne,
+      decide_eq_false_iff_not] at h2
+    simp only [blockFails, Bool.or_eq_false_iff, beq_eq_false_iff_ne, decide_eq_false_iff_not]
+    omega
 
 /-! ### findings: the hypotheses that cannot be dropped -/
 
